@@ -16,21 +16,21 @@ Open Scope Z_scope.
    (send_error, or a response that is a nack or carries an error status) *)
 Theorem C01_segmented_outcome :
   forall r log k sq uid gs,
-  (2 <= k)%nat ->
+  (2 <= k <= 255)%nat ->
   (forall i j, (i < k)%nat -> (j < k)%nat -> sq i = sq j -> i = j) ->
   ovalid k sq (fun _ => QNot) None gs ->
   verdict log k (fst (ofinal (fun _ => QNot) None gs))
           (concat (hrun_each hinit (map (oconc r log k sq uid) gs))).
-Proof. intros r log k sq uid gs Hk Hinj Hv. exact (outcome_exactly_once r log k sq uid Hk Hinj gs Hv). Qed.
+Proof. intros r log k sq uid gs [Hk Hk255] Hinj Hv. exact (outcome_exactly_once r log k sq uid Hk Hk255 Hinj gs Hv). Qed.
 
 (* ... and the hooks see exactly the specified calls, event by event *)
 Theorem C01_event_by_event :
   forall r log k sq uid gs s q lr,
-  (2 <= k)%nat ->
+  (2 <= k <= 255)%nat ->
   (forall i j, (i < k)%nat -> (j < k)%nat -> sq i = sq j -> i = j) ->
   QI r log k sq uid s q lr -> ovalid k sq q lr gs ->
   hrun_each s (map (oconc r log k sq uid) gs) = ospec log k q lr gs.
-Proof. intros r log k sq uid gs s q lr Hk Hinj. exact (o_run r log k sq uid Hk Hinj gs s q lr). Qed.
+Proof. intros r log k sq uid gs s q lr [Hk Hk255] Hinj. exact (o_run r log k sq uid Hk Hk255 Hinj gs s q lr). Qed.
 
 (* ANY NUMBER n of segmented messages in flight at the same time - distinct sequence numbers, each with any number >= 2 of segments, and
    ANY segmentation references, also EQUAL ones (the 8-bit reference is re-used after 256 messages: the status cell of a message is keyed
@@ -42,7 +42,7 @@ Proof. intros r log k sq uid gs s q lr Hk Hinj. exact (o_run r log k sq uid Hk H
 Theorem C01_concurrent_messages :
   forall (n : nat) (D : nat -> mdesc),
   (forall j, (j < n)%nat ->
-     (2 <= md_k (D j))%nat /\ 0 <= md_r (D j) < 65536
+     (2 <= md_k (D j) <= 255)%nat /\ 0 <= md_r (D j) < 65536
      /\ forall a b, (a < md_k (D j))%nat -> (b < md_k (D j))%nat -> md_sq (D j) a = md_sq (D j) b -> a = b) ->
   (forall i j, (i < n)%nat -> (j < n)%nat -> i <> j ->
      forall a b, (a < md_k (D i))%nat -> (b < md_k (D j))%nat -> md_sq (D i) a <> md_sq (D j) b) ->
@@ -60,7 +60,7 @@ Proof. exact concurrent_outcomes. Qed.
 Theorem C01_stray_responses :
   forall (n : nat) (D : nat -> mdesc),
   (forall j, (j < n)%nat ->
-     (2 <= md_k (D j))%nat /\ 0 <= md_r (D j) < 65536
+     (2 <= md_k (D j) <= 255)%nat /\ 0 <= md_r (D j) < 65536
      /\ forall a b, (a < md_k (D j))%nat -> (b < md_k (D j))%nat -> md_sq (D j) a = md_sq (D j) b -> a = b) ->
   (forall i j, (i < n)%nat -> (j < n)%nat -> i <> j ->
      forall a b, (a < md_k (D i))%nat -> (b < md_k (D j))%nat -> md_sq (D i) a <> md_sq (D j) b) ->
@@ -118,9 +118,9 @@ Proof. exact handle_response_x_nil. Qed.
 
 (* the status a message ends with: failed beats timed-out beats accepted *)
 Theorem C01_failure_wins :
-  forall k q, (2 <= k)%nat -> all_processed k q = true ->
+  forall k q, (2 <= k <= 255)%nat -> all_processed k q = true ->
   (final_code k q = STATUS_SENT <-> forall i, (i < k)%nat -> q i = QOk).
-Proof. intros k q Hk. exact (all_ok_code k Hk q). Qed.
+Proof. intros k q [Hk Hk255]. exact (all_ok_code k Hk Hk255 q). Qed.
 
 Example C01_nonvacuous :
   let seg i := {| sm_uid := 10 + i; sm_cmd := 4; sm_seq := 100 + i; sm_log := 7; sm_sar := (5, i, 3) |} in
